@@ -8,6 +8,23 @@ import pathlib
 VERIF = pathlib.Path(__file__).resolve().parent.parent
 
 
+#: why a planted mutation is not reported by the check it was aimed at
+REASONS = {
+    "M-C02-b": "equivalent mutant: at a depth of exactly 0 the cone term is 0, `>=` instead of `>` changes no output",
+    "M-C02-g": "equivalent mutant: the same for the layered model (both versions evaluated side by side)",
+    "M-C01-c": "adds 0.5 to the contact-point weights: another weighting, under which the optimum on exact data and "
+               "C01's noise bound still hold; C13 (residual-definition) and C04 (residual-column) report it",
+    "M-C12-f": "equivalent for the property: preprocessing options enter the hash through the preprocessed data; "
+               "options that leave the data unchanged cannot influence the result",
+    "M-C06-b": "equivalent mutant: the column access returns a copy, the in-place subtraction acts on that copy",
+    "M-C03-c": "equivalent mutant: the removed assignment is overwritten before it is read",
+    "M-C03-d": "equivalent mutant: assigning the preprocessing keys triggers the same reset through "
+               "FitProperties.__setitem__",
+    "M-C08-e": "changes a tuning constant of one estimator (gradient threshold 1 % -> 20 %): still a valid index "
+               "within the calibrated accuracy fraction; the property does not fix the constant",
+}
+
+
 def main():
     pm = json.loads((VERIF / "tools" / "mutation_results.json").read_text())
     by = collections.defaultdict(lambda: collections.Counter())
@@ -24,6 +41,11 @@ def main():
         nd = [m for m, q, v in missed if q == p]
         print(f"| {p} | {sum(c.values())} | {c['DETECTED']} | {', '.join(nd) or '-'} |")
     print(f"\ntotal {len(pm)}, detected {sum(1 for r in pm if r['verdict'] == 'DETECTED')}\n")
+    if missed:
+        print("Not detected by the check they were aimed at:\n")
+        for m, q, v in missed:
+            print(f"* {m} ({q}, {v}): {REASONS.get(m, 'not analysed')}")
+        print()
 
     first = {}
     fp = VERIF / "seeded" / "first_pass_results.txt"
